@@ -37,6 +37,11 @@ for d in sorted(os.listdir('/verif/seeded')):
     elif rc is None: verdict='not run'
     else: verdict='NOT caught'
     rows.append((d,files,verdict,'; '.join(caught)))
+    # keep each seed's meta.json in step with the table
+    if rc is not None:
+        meta['caught_by_checks']=sorted(set(caughtmap.get(d,[])))
+        meta['checks_run']='tools/mutants_par.sh / mutants_all.sh (check of its own property) and tools/mutant_cross.sh (related properties) at the last re-baseline; see seeded/RESULTS.md'
+        json.dump(meta,open(p+'/meta.json','w'),indent=1)
 out='| seed | changed file | verdict | failing obligation (check: obligation) |\n|------|--------------|---------|------------------------------------------|\n'
 for r in rows: out+='| %s | %s | %s | %s |\n'%r
 n=len(rows); c=sum(1 for r in rows if r[2]=='caught'); na=sum(1 for r in rows if r[2].startswith('patch'))
